@@ -102,8 +102,13 @@ def _client_main(sim, rr: RunRecord, ci: int, cspec: dict, shared: dict):
             return uuid.UUID(int=10 ** 9 + ci)
         if ':' in ref:
             who, name = ref.split(':')
-            return shared['ids'].get((int(who[1:]), name))
-        return shared['ids'].get((ci, ref))
+            tid = shared['ids'].get((int(who[1:]), name))
+        else:
+            tid = shared['ids'].get((ci, ref))
+        if tid is None:
+            # not submitted (yet): a well-formed id nobody has issued
+            tid = uuid.UUID(int=2 * 10 ** 9 + ci)
+        return tid
 
     try:
         sim.log('CLIENT-START', ci)
@@ -122,6 +127,7 @@ def _client_main(sim, rr: RunRecord, ci: int, cspec: dict, shared: dict):
             out['connected'] = True
             sim.log('CLIENT-CONNECTED', ci)
         out['compiler'] = comp
+        conn0 = comp.conn if comp is not None else None
         for i, op in enumerate(cspec['script']):
             if comp is None:
                 break
@@ -164,14 +170,23 @@ def _client_main(sim, rr: RunRecord, ci: int, cspec: dict, shared: dict):
             except HarnessError:
                 raise
             except Exception as e:
+                if comp.conn is None and conn0 is not None \
+                        and not conn0.closed:
+                    # the client's error path drops its only reference to
+                    # the connection (`self.conn = None`): CPython's
+                    # reference counting finalises and closes it at once
+                    sim.log('DEL-CLOSE', ci)
+                    conn0.close()
                 sim.log('CLIENT-OP-EXC', ci, i, type(e).__name__)
                 hist.append({'seq': inv, 'i': i, 'op': op, 'kind': 'exc',
-                             'val': exc_chain(e), 'ret': sim.seq + 1})
+                             'val': exc_chain(e), 'ret': sim.seq + 1,
+                             'now': sim.now})
                 sim.seq += 1
             else:
                 sim.log('CLIENT-OP-OK', ci, i, val[0])
                 hist.append({'seq': inv, 'i': i, 'op': op, 'kind': 'ok',
-                             'val': val, 'ret': sim.seq + 1})
+                             'val': val, 'ret': sim.seq + 1,
+                             'now': sim.now})
                 sim.seq += 1
         out['script_done'] = True
         sim.log('CLIENT-SCRIPT-DONE', ci)
@@ -330,8 +345,9 @@ def execute(scn: dict, decisions: list | None = None, verbose: bool = False,
     # fault plan
     from dst import faults
     faults.install(sim, rr, scn.get('faults') or [])
-    for m in (monitors or []):
-        m.install(sim, rr)
+    from dst import monitors as monitors_mod
+    for name in scn.get('monitors') or []:
+        monitors_mod.MONITORS[name]().install(sim, rr)
 
     def on_quiescence(sim_: Sim) -> bool:
         rr.phase_steps.append(sim_.steps)
@@ -341,8 +357,13 @@ def execute(scn: dict, decisions: list | None = None, verbose: bool = False,
             rr.idle_snapshot = snapshot(sim_)
             rr.idle_blocked = sim_.blocked_report()
             rr.idle_seq = sim_.seq
-            for c in rr.clients:
-                c['done_at_idle'] = bool(c['script_done'])
+            rr.idle_now = sim_.now
+            rr.alive_at_idle = [n.name for n in sim_.nodes.values()
+                                if n.kind in ('server', 'manager', 'worker')
+                                and not n.dead]
+            for ci, c in enumerate(rr.clients):
+                c['killed'] = sim_.nodes[f'c{ci}'].exit_how == 'crash'
+                c['done_at_idle'] = bool(c['script_done']) or c['killed']
                 c['ops_done_at_idle'] = len(
                     [h for h in c['history'] if h['i'] >= 0])
             sim_.release('idle')
